@@ -109,10 +109,10 @@ claimed = {
 # sub-checks added after the seeding rounds (DESIGN.md §8): appended to the technique text
 also = {
  "C01": "limit −1 and sources flagged built-in included; under a non-zero limit the call depth is bounded by the limit; 46 families",
- "C02": "type-blind documents ≤7/11 tokens; 17 profiles (~100k documents), 38 document families incl. fan-outs ending in an undefined fragment or a cycle, and 6 size families of type systems (interface layers / cliques / chains, input chains, wide unions, extension floods) through LoadSchema",
+ "C02": "type-blind documents ≤7/11 tokens; 17 profiles (~100k documents), 38 document families incl. fan-outs ending in an undefined fragment or a cycle, and 6 size families of type systems (interface layers / cliques / chains, input chains, wide unions, extension floods) through LoadSchema, directives on directive arguments (fan-out, cycle)",
  "C03": "22 escape-level symbols; block bodies ≤6/8 over an alphabet with U+0007 and U+2028",
  "C04": "lexical error locations must be the start of the failing token, the character that rules it out, or an escape inside it",
- "C05": "values-distinct (every value shape ≤12/15 tokens with every leaf and key a text of its own), call-histories (every sequence of ≤3/4 parser calls over 40 (entry, document, limit) combinations equals the calls on their own), families-accept (46 size families up to 2048/8192 tokens against the reference recogniser)",
+ "C05": "names-with-non-ascii (non-ASCII characters glued behind names must be rejected); values-distinct (every value shape ≤12/15 tokens with every leaf and key a text of its own), call-histories (every sequence of ≤3/4 parser calls over 40 (entry, document, limit) combinations equals the calls on their own), families-accept (46 size families up to 2048/8192 tokens against the reference recogniser)",
  "C06": "values-distinct, call-histories, families-accept as C05; multi-source pairs include one definition and one extension of every kind",
  "C07": "≈170 menu items incl. wrong kinds under list wrappers, non-object roots, extension-only interfaces, names declared twice with different kinds, faulty extensions of built-ins",
  "C08": "type-blind documents ≤7/12 tokens; 17 profiles (~100k documents) incl. repeated-fragment and multi-conflict overlap matrices, list-with-default locations, list literals in custom scalars, repeatable directives before duplicates",
@@ -121,12 +121,12 @@ also = {
  "C11": "14 operations; a canonical dump of every package-level variable of the library compared around every operation, including its first run in the process",
  "C12": "full-name sentences ≤7/9 tokens; 22 awkward characters incl. U+FFFD; tree-edits (every non-constant value of the profile trees replaced by a variable / block string / awkward string / list: trees the parser did not build)",
  "C13": "type-system sentences ≤5/7 tokens; default-values, root-names (every root configuration × a type of each kind named like a free default root), the text compared under descending and rotated map iteration orders",
- "C14": "≤2/4 deviations; 20 input-object variants incl. aliased maps and __-prefixed keys; 8 ways of writing a default",
- "C15": "expectation from the check's own variable model; shared-fragments, list-depth ([[[Int]]] variables), directive-sites (sites × directives incl. redeclared built-ins × argument sources)",
- "C16": "limits −2…N+2; pairs of sources × built-in flags × limits through ParseSchemasWithLimit (same tree and built-in flags); limit 0 / 2³⁰ = unlimited on all families to 64 KiB; limit −1 on the families",
+ "C14": "two-schemas (sequences of coercions over two schemas with same-named enum / input object); ≤2/4 deviations; 20 input-object variants incl. aliased maps and __-prefixed keys; 8 ways of writing a default",
+ "C15": "expectation from the check's own variable model; shared-fragments, list-depth ([[[Int]]] variables), directive-sites (sites × directives incl. redeclared built-ins × argument sources), schema-versions, abstract-scope",
+ "C16": "call-histories (every sequence of ≤3/4 limited / unlimited parser calls equals the calls on their own, comments included); limits −2…N+2; pairs of sources × built-in flags × limits through ParseSchemasWithLimit (same tree and built-in flags); limit 0 / 2³⁰ = unlimited on all families to 64 KiB; limit −1 on the families",
  "C17": "quick also pairs every extension with every described definition",
  "C18": "type-blind documents ≤5/9 tokens; the explicitly empty rule list; explicit-state search over the global rule registry (every sequence of ≤4/6 AddRule / RemoveRule / ReplaceRule operations from 11, states = registry contents, every transition executed on the real registry); documents with several hundred errors",
- "C19": "full-name sentences ≤7/9 tokens; comments at every gap, chains of 1…48 nested selections, the indented and the generically re-encoded spelling of the JSON",
+ "C19": "full-name sentences ≤7/9 tokens; comments at every gap, chains of 1…48 nested selections, the indented, generically re-encoded and null-dropped spelling of the JSON, decoding into used targets, awkward string values, validated documents",
  "C20": "without-suggestions variants, ReplaceRule-registered rules, sources flagged built-in, errors located in the prelude, documents with several hundred errors, paths ≤5/6 over 9 elements incl. names with control characters",
 }
 for k, v in also.items():
